@@ -721,7 +721,10 @@ class HTM(htmc.HTMC):
                 maxid = htmid2.max()
 
         if htmrev2 is None:
-            hist2, htmrev2 = stat.histogram(htmid2 - minid, rev=True)
+            # bin k must hold the points with id minid + k, whatever minid is
+            hist2, htmrev2 = stat.histogram(
+                htmid2 - minid, min=0, max=maxid - minid, rev=True,
+            )
 
         minmax_ids = np.array([minid, maxid], dtype="i8")
 
